@@ -56,7 +56,7 @@ CHECKS = {
                 text="Every public function with buffer arguments on every back end, on the shipped gcc -O3 objects under valgrind memcheck: each buffer sits at each alignment offset 0..31 inside a region whose remaining bytes are NOACCESS (byte exact on both sides), so a read or write outside the extent given by the arguments is reported at the faulting instruction; single-block functions run all 32x32 input/output alignments and every overlap offset -B..+B; key, tweak and counter arguments every legal length; bulk calls the LENS lengths with exact aliasing at every offset. Results must equal the aligned, non-overlapping call. A one-byte over-read is the positive control.",
                 note="Alignment offsets above 31 and partial overlap of bulk buffers are not run; undefined-value errors are disabled here (C11)."),
     "C11": dict(level="exploration", engine="dp", design_ref="4/C11", technique="enumeration of the C01-C10 histories under MemorySanitizer with explicit shadow tests, plus a stack/object paint differential across -O0/-O3",
-                text="The histories of C01, C02, C05, C07 and C10 (thorough: C04 too) are executed (a) in a clang MemorySanitizer build with an explicit shadow test on every output block, key schedule, context image and return value, with caller objects and the stack below each call poisoned, and (b) in the shipped -O3 and an -O0 build twice each with the stack below every call and the caller's objects painted 0x00 vs 0xA5; the per-result-kind digests of everything returned must be bit-identical across the four runs.",
+                text="The histories of C01, C02, C04 (block level; thorough: the schedule worlds too), C05, C06, C07 and C10, every shard of each in both tiers, are executed (a) in a clang MemorySanitizer build with an explicit shadow test on every output block, key schedule, context image and return value, with caller objects and the stack below each call poisoned, and (b) in the shipped -O3 and an -O0 build twice each with the stack below every call and the caller's objects painted 0x00 vs 0xA5; the per-result-kind digests of everything returned must be bit-identical across the four runs.",
                 note="Only the paths in those histories; heap blocks come from calloc in every back end."),
     "C12": dict(level="exploration", engine="cfg", design_ref="4/C12", technique="exhaustive enumeration of the build-configuration cross product x a fixed battery; digest equality",
                 text="Configurations = {64,32}-bit word paths x {unaligned fast paths, byte-wise} x {SIMD 128+256, 128 only, none, none + byte-order-neutral scalar code} x {gcc, clang} x {-O0..-O3}: all 128 in the thorough tier, a 13-build covering subset (every switch value and every switch/compiler pair) in the quick tier, each built through the repository Makefile using the guarded platform-switch hook. One deterministic battery (block families for all variants incl. tweakable and Mantis, CTR streams with carries, short counters, irregular cuts and mid-stream re-key, parallel ECB for every count, every key length) runs pinned to each back end of each build; every section digest must be identical across all runs.",
@@ -103,7 +103,7 @@ EXTRA = {
     "C07": PRELUDE + PRIOR + " Data families other than the first run on buffers whose offsets from a 32-byte boundary walk through 0..15; Mantis tweak arrays come from six structured families; counts up to 8193 blocks (across 2^16 bytes); also on the 32-bit-word build. Thorough: one in-place request of 2^32 bytes + 9 blocks per entry point and vector back end, sampled blocks against the single-block functions (about 4.3 GiB per cipher).",
     "C09": " The second request of a stream (first request ending block-aligned or not inside a batch) is placed between red zones as well; a faulting call is attributed to its case by the forked runner; every reported placement is re-executed alone under memcheck before it is printed.",
     "C10": PRELUDE + " Wrap-around length candidates (2^32 - v, 2^k + multiples of the block) are included; prior objects carry a non-zero tweak.",
-    "C11": " The C06 worlds (re-keying and tweak changes outside the stream regime) and the allocation-failure histories of C16 are part of the histories; heap blocks the library did not request cleared are filled with the paint pattern of the run and poisoned under MemorySanitizer; every reported case is re-executed alone before it is printed.",
+    "C11": " The C06 worlds (re-keying and tweak changes outside the stream regime) and the allocation-failure histories of C16 are part of the histories; heap blocks the library did not request cleared are filled with the paint pattern of the run and poisoned under MemorySanitizer; canonical state images carry a signature of which bytes MemorySanitizer holds uninitialised, so a state whose bytes are right by accident is not merged with the clean one; every reported case is re-executed alone before it is printed.",
     "C12": " The driver takes COMMON_CFLAGS, STDC_CFLAGS, VEC128_CFLAGS and VEC256_CFLAGS from the tree's own options.mak for the shipped configuration; the parallel section puts buffers at odd offsets and uses structured tweak arrays, the CTR section seeks inside a buffered batch; a battery that dies in one configuration is a violation.",
     "C13": " The caller's object is painted with the pattern of the case before each init, the builds include one with no SIMD back end compiled in, both entries of the parallel function tables are identified, the first and second allocation request of every init are refused on the real CPU (an init that still succeeds must have made the right selection), and every instruction of every object of the library as src/Makefile and options.mak build it is decoded: only the two 256-bit back-end objects may contain instructions beyond the x86-64 baseline with SSE2.",
     "C14": PRELUDE + PRIOR + " Invalid classes include combinations (NULL pointer together with an out-of-range length), Mantis round counts equal to a legal one modulo 32 and modulo 2^31, ragged parallel sizes containing whole batches in both directions and, for Mantis parallel objects, both directions for the keyed object and for the invalid call.",
